@@ -72,4 +72,11 @@ CHECKS = {
         thorough=dict(groups=[G("reputation", "^TestC20Reputation$", 1500, 3), G("audit", "^TestC20Audit$", 1000, 3), G("neofsid", "^TestC20NeoFSID$", 2000, 2),
                               G("config", "^TestC20Config$", 2000, 3), G("estimations", "^TestC20Estimations$", 1500, 5)]),
     ),
+    "C18": dict(
+        title="NNS accepts exactly well-formed names and record data",
+        quick=dict(groups=[E("exhaustive", "^TestC18Exhaustive$", 4, env=dict(VERIF_C18_MAXLEN=4)), E("ipv4-product", "^TestC18IPv4Product$", 4),
+                           G("structured", "^TestC18Structured$", 250, 8)]),
+        thorough=dict(groups=[E("exhaustive", "^TestC18Exhaustive$", 16, env=dict(VERIF_C18_MAXLEN=6)), E("ipv4-product", "^TestC18IPv4Product$", 16),
+                              G("structured", "^TestC18Structured$", 5000, 16)]),
+    ),
 }
